@@ -13,6 +13,8 @@ Transformations
                  irrelevant)
   flip-if        ``if not c: A else: B`` -> ``if c: B else: A`` and ``if a != b`` / ``is not`` likewise (non-elif only)
   return-temp    ``return E`` -> ``_ret = E; return _ret``
+  insert-noop    a call without effect (``(lambda: None)()``, standing for a log line) at the start of every function
+                 body and loop body
 """
 
 import ast
@@ -204,7 +206,32 @@ def _return_temp(tree):
     return _ReturnTemp().visit(tree)
 
 
+class _InsertNoop(ast.NodeTransformer):
+    """Insert a statement without effect (a call of `lambda: None`, standing for a log line) at the start of every function body (after the docstring) and of every
+    loop body: what a maintainer does when adding a log line or a comment-like marker."""
+
+    def _pad(self, body, keep_doc):
+        i = 1 if keep_doc and body and isinstance(body[0], ast.Expr) and isinstance(getattr(body[0], "value", None), ast.Constant) and isinstance(body[0].value.value, str) else 0
+        noop = ast.Expr(value=ast.Call(func=ast.Lambda(args=ast.arguments(posonlyargs=[], args=[], kwonlyargs=[], kw_defaults=[], defaults=[]), body=ast.Constant(value=None)), args=[], keywords=[]))
+        return body[:i] + [noop] + body[i:]
+
+    def visit_FunctionDef(self, node):
+        self.generic_visit(node)
+        node.body = self._pad(node.body, True)
+        return node
+
+    visit_AsyncFunctionDef = visit_FunctionDef
+
+    def visit_For(self, node):
+        self.generic_visit(node)
+        node.body = self._pad(node.body, False)
+        return node
+
+    visit_While = visit_For
+
+
 TRANSFORMS = {
+    "insert-noop": lambda tree: _InsertNoop().visit(tree),
     "return-temp": _return_temp,
     "unparse": lambda tree: tree,
     "rename-locals": _rename_locals,
